@@ -3,6 +3,7 @@
 package swamp
 
 import (
+	"strings"
 	"time"
 
 	"github.com/hydraide/hydraide/app/core/hydra/swamp/chronicler"
@@ -346,7 +347,6 @@ func VerifC05History(h *verifrt.H) {
 				t := s.CreateTreasure(k)
 				g := t.StartTreasureGuard(true)
 				v := h.Int64("value")
-				h.Assume(v != 0) // typed zero values are the known finding of VerifC05Reload
 				if cur, err := t.GetContentInt64(); err == nil && h.Choose("sameValue", 2) == 1 {
 					v = cur
 				}
@@ -380,6 +380,53 @@ func VerifC05History(h *verifrt.H) {
 		}
 		r.Close()
 	}
+	h.Cover("end")
+}
+
+// ---------- C26 (stored data survives malformed records) ----------
+
+// VerifC26Reload: records are written to a persistent swamp (immediate-write or within one
+// write interval); at a symbolic position of the batch stands a record the file format cannot
+// hold - an empty key or a key of 65536 bytes - as the gateway passes such keys through. After
+// Close and a re-summon from the file every well-formed record that was acknowledged is there
+// with its value: a malformed record never takes stored data of valid requests with it.
+func VerifC26Reload(h *verifrt.H) {
+	h.BackgroundLowPriority(true)
+	dir := h.TempDir() + "/sw"
+	wi := time.Duration(h.Choose("immediateWrite", 2)) * time.Second
+	s := vfPersist(h, dir, time.Second-wi, nil)
+	n := h.Param("records", 3)
+	bad := h.Choose("malformedPosition", n+1) // n: none
+	badKey := ""
+	if h.Choose("malformedKind", 2) == 1 {
+		badKey = strings.Repeat("k", 65536)
+	}
+	good := []string{"good-1", "good-2", "good-3", "good-4"}
+	vals := make([]int64, n)
+	acked := make([]bool, n)
+	for i := 0; i < n; i++ {
+		k := good[i]
+		if i == bad {
+			k = badKey
+		}
+		vals[i] = h.Int64("value")
+		st := c09set(s, k, vals[i])
+		acked[i] = st == treasure.StatusNew
+	}
+	s.Close()
+	r := vfPersist(h, dir, time.Second, nil)
+	for i := 0; i < n; i++ {
+		if i == bad || !acked[i] {
+			continue
+		}
+		t, err := r.GetTreasure(good[i])
+		h.Assert(err == nil, "valid-record-survives-a-malformed-one")
+		if err == nil {
+			v, e := t.GetContentInt64()
+			h.Assert(e == nil && v == vals[i], "valid-record-value-survives-a-malformed-one")
+		}
+	}
+	r.Close()
 	h.Cover("end")
 }
 
